@@ -905,6 +905,15 @@ fn gen_c14(rng: &mut Rng, tier: &str, emit: Emit) {
                 if k == "d" && len > 140 { continue; }
                 emit(line("fmtspec", &[&v, k, sp]));
             }
+            // every combination of fill x alignment x + x # x 0, widths around the numeral's own length
+            for _ in 0..40 {
+                let k = ["b", "o", "d", "x", "X"][rng.below(5)];
+                if k == "d" && len > 140 { continue; }
+                let key = *rng.pick(FMT_RT_KEYS);
+                let digits = match k { "b" => len, "o" => (len + 2) / 3, "d" => len * 3 / 10 + 1, _ => (len + 3) / 4 }.max(1);
+                let w = match rng.below(6) { 0 => rng.below(4), 1 => digits, 2 => digits + 1 + rng.below(4), 3 => digits.saturating_sub(1 + rng.below(3)), 4 => digits + 2 + rng.below(40), _ => rng.below(300) };
+                emit(line("fmtspec", &[&v, k, &format!("R{}.{}", key, w)]));
+            }
         }
     }
     for ty in small_types() {
